@@ -55,6 +55,9 @@ var pointValues = map[string][]string{
 	"maxF32":    {"340282346638528859811704183484516925440"},
 	"2^128":     {"340282366920938463463374607431768211456", "680564733841876926926749214863536422912"},
 	"1e300":     {"1000000000000000052504760255204420248704468581108159154915854115111802457988908195786371375080447864043704443832883878176942523235360430575644792184786706982848387200926575803737830233794788090059368953234970799945081119038967640880074652742780142494579258788820056842838115669472196386865459400540160"},
+	"-1e300":    {"-1000000000000000052504760255204420248704468581108159154915854115111802457988908195786371375080447864043704443832883878176942523235360430575644792184786706982848387200926575803737830233794788090059368953234970799945081119038967640880074652742780142494579258788820056842838115669472196386865459400540160"},
+	"-2^128":    {"-340282366920938463463374607431768211456", "-680564733841876926926749214863536422912"},
+	"-maxF32":   {"-340282346638528859811704183484516925440"},
 	"NaN":       {"NaN"},
 	"+Inf":      {"+Inf"},
 	"-Inf":      {"-Inf"},
